@@ -53,6 +53,7 @@ type Thread struct {
 	stubHang  bool
 	lazy      bool   // parked at a lazy yield: schedulable at store-visible points, does not hold back the clock
 	lazyTm    *Timer
+	lazyOps   bool // candidate only when another thread is parked at a store-operation leg (not at quiescent instants)
 	lib       bool // runs library code (spawned by a `go` in non-harness code)
 }
 
@@ -410,10 +411,16 @@ func (w *World) run() {
 			}
 		}
 		if len(en) == 0 {
-			if len(lz) > 0 && len(w.liveTimers()) > 0 {
+			var lzq []*Thread
+			for _, c := range lz {
+				if !c.lazyOps {
+					lzq = append(lzq, c)
+				}
+			}
+			if len(lzq) > 0 && len(w.liveTimers()) > 0 {
 				// quiescent instant: a lazily parked thread (API caller, environment) may act now, or time moves on
-				if d := w.decide(1+len(lz), "lazy-or-time"); d > 0 {
-					en = []*Thread{lz[d-1]}
+				if d := w.decide(1+len(lzq), "lazy-or-time"); d > 0 {
+					en = []*Thread{lzq[d-1]}
 				}
 			}
 			if len(en) == 0 {
@@ -443,6 +450,7 @@ func (w *World) run() {
 		}
 		if t.lazy {
 			t.lazy = false
+			t.lazyOps = false
 			if t.lazyTm != nil {
 				t.lazyTm.dead = true
 			}
